@@ -447,7 +447,13 @@ func familyLayouts(n int) []layout {
 
 // typecheckLayouts: the layouts translated a second time with -typecheck (at most ~60 per set).
 func typecheckLayouts(n int) []layout {
-	l := familyLayouts(n)
+	var l []layout
+	for _, x := range familyLayouts(n) {
+		// for 3 and more declarations the layouts under the second pair of file names are left out
+		if n <= 2 || len(x.Files) == 1 || x.Files[0].Name == "a_f1.go" {
+			l = append(l, x)
+		}
+	}
 	if len(l) <= 60 {
 		return l
 	}
